@@ -29,14 +29,51 @@ func errShape(msg string) string {
 	msg = normNumRe.ReplaceAllString(msg, "N")
 	msg = cannotUseRe.ReplaceAllString(msg, "cannot use E (")
 	msg = qualStarRe.ReplaceAllString(msg, "**X")
+	msg = noFieldRe.ReplaceAllString(msg, "this.X undefined (type **X has no field or method X)")
+	msg = nestedAssignRe.ReplaceAllString(msg, "cannot assign to (dst[X])[X]")
 	return head(msg, 150)
 }
 
+var noFieldRe = regexp.MustCompile(`this\.\w+ undefined \(type \*\*+[\w."/]+ has no field or method \w+\)`)
+var nestedAssignRe = regexp.MustCompile(`cannot assign to \(+dst(?:\[X\]\)*)+\[X\]`)
 var cannotUseRe = regexp.MustCompile(`cannot use .*? \((?:variable|map index expression|value|constant)[^)]* of `)
 var qualStarRe = regexp.MustCompile(`\*\*(?:"[^"]+"|[a-z0-9]+)\.X`)
 
 func c01FailKey(f e1Failure) string {
-	return fmt.Sprintf("%s|%s", f.Case.Tags["plugin"], errShape(firstErrorLine(f.Output)))
+	pl := f.Case.Tags["plugin"]
+	// the plugin whose generated function the first error lies in (a helper requested
+	// by another plugin is that helper's plugin's matter)
+	if c := culpritPlugin(f); c != "" {
+		pl = c
+	}
+	return fmt.Sprintf("%s|%s", pl, errShape(firstErrorLine(f.Output)))
+}
+
+var firstGenErrRe = regexp.MustCompile(`derived\.gen\.go:(\d+):`)
+var funcNameRe = regexp.MustCompile(`^func (derive[A-Za-z0-9_]*)\(`)
+
+func culpritPlugin(f e1Failure) string {
+	m := firstGenErrRe.FindStringSubmatch(firstErrorLine(f.Output))
+	src := f.Files["p/derived.gen.go"]
+	if m == nil || src == "" {
+		return ""
+	}
+	var ln int
+	fmt.Sscanf(m[1], "%d", &ln)
+	name := ""
+	for i, l := range strings.Split(src, "\n") {
+		if i+1 > ln {
+			break
+		}
+		if fm := funcNameRe.FindStringSubmatch(l); fm != nil {
+			name = fm[1]
+		}
+	}
+	if name == "" {
+		return ""
+	}
+	pl, _ := pluginOf(name, defaultPrefixes())
+	return pl
 }
 
 // recursive plugin call templates: form -> source. T is the type, ID the case id.
